@@ -692,7 +692,47 @@ def check_block(fx, R, C, cname, f, k, dim, blk):
     after = all(e['kind'] != 'dloop' for e in events[pos + 1:]) and not o['loops']
     R.check(after, 'O7', inst + ':order', 'offset[%d] is updated before (or inside) the blanking loops of its axis, which index through the old offset' % k,
             'offset updated after the blanking loops', fx.rel(o['loc']), 'E-STATE')
-    rhs = C.ev(o['rhs'])
+    # value rule: an offset update delegated to a helper `h(current offset, d, n)` is evaluated on every (n, current, d) of the bounded-exhaustive
+    # part of the quantifier (n = 1..4, current in [0, n), d in [-(2n+1), 2n+1]): the result must be (current + d) mod n in [0, n)
+    rn = strip_casts(o['rhs'])
+    if rn.get('k') in ('Call', 'MCall') and rn.get('inrepo') and rn.get('fk') and len(rn.get('args', [])) == 3:
+        h = fx.functions.get(rn['fk'])
+        first = C.ev(rn['args'][0]) if True else None
+        if h is not None and h.get('body') is not None and first == offk:
+            from .. import mini
+            from .C20 import deep_unwrap
+            pn = [p_['name'] for p_ in h['params']]
+            bad = why = None
+            n_cells = 0
+            for n_ in (1, 2, 3, 4, 5, 8):
+                for cur in range(n_):
+                    for d_ in range(-(2 * n_ + 1), 2 * n_ + 2):
+                        try:
+                            got = mini.Step(deep_unwrap).call(h['body'], {pn[0]: cur, pn[1]: d_, pn[2]: n_})
+                        except mini.Unsupported as e_:
+                            why = str(e_)
+                            break
+                        n_cells += 1
+                        if got != (cur + d_) % n_:
+                            bad = bad or (n_, cur, d_, got)
+                    if why:
+                        break
+                if why:
+                    break
+            if why is None:
+                if bad:
+                    R.violated('O2', '%s:offset-helper' % inst.split(':axis')[0], '%s(current = %d, d = %d, n = %d) returns %s; the accumulated offset modulo the grid size is %d: the reported index offset is wrong after a '
+                               'translation by %d on an axis of %d cells whose offset was %d (a reachable state: offsets accumulate over a sequence of translations)' % (
+                                   h['name'], bad[1], bad[2], bad[0], bad[3], (bad[1] + bad[2]) % bad[0], bad[2], bad[0], bad[1]), fx.rel(h['loc']), 'E-STEP')
+                else:
+                    R.holds('O2', inst + ':accumulate', 'new offset reads the old one', fx.rel(o['loc']), 'E-STATE')
+                    R.holds('O2', inst + ':congruence', '%s(current, d, n) = (current + d) mod n on %d cells (n = 1..5, 8; every current; d in [-(2n+1), 2n+1])' % (h['name'], n_cells), fx.rel(o['loc']), 'E-STEP')
+                return
+    try:
+        rhs = C.ev(o['rhs'])
+    except sym.Unsupported as u_:
+        R.undecided('O2', inst + ':accumulate', 'offset update not interpretable: %s' % u_)
+        return
     if not isinstance(rhs, sp.Basic):
         R.undecided('O2', inst + ':accumulate', 'offset update not interpretable: %s' % pp(o['rhs']))
         return
